@@ -335,7 +335,44 @@ Variable sym : string -> option Z.              (* the value a symbol finally ha
 Variable dot : Z.                               (* state["emit_address"] *)
 
 (* Ok (v, ids): value and the identifiers given to reports.error on the way (evaluation goes on
-   after such a report);  Err ids: reported and then gave up (RecoverableError);  Crash: exception *)
+   after such a report);  Err ids: reported and then gave up (RecoverableError, or an exception that
+   compiler.py turns into a report: MemoryError -> 'too-complex');  Crash: any other exception *)
+Definition raised_id (s : string) : string :=
+  if String.eqb s "raised MemoryError" then "too-complex" else s.
+
+(* the outcome of an operator body, after the operands reported [errs] *)
+Definition apply_body (errs : list string) (r : res opres) : res (Z * list string) :=
+  match r with
+  | Ok (v, e) => Ok (v, errs ++ e)%list
+  | Err ids => Err (errs ++ map raised_id ids)%list
+  | Crash s => if String.eqb s "MemoryError" then Err (errs ++ ["too-complex"])%list else Crash s
+  | OutOfFuel => OutOfFuel
+  end.
+
+(* lhs.resolve, then rhs.resolve, then the operator: an exception in one stops the rest, reports stay *)
+Definition eval2 (ml mr : res (Z * list string)) (f : option (Z -> Z -> res opres)) : res (Z * list string) :=
+  match ml with
+  | Ok a =>
+      match mr with
+      | Ok b => match f with
+                | Some g => apply_body (snd a ++ snd b)%list (g (fst a) (fst b))
+                | None => Crash "KeyError:operator"
+                end
+      | Err ids => Err (snd a ++ ids)%list
+      | Crash s => Crash s
+      | OutOfFuel => OutOfFuel
+      end
+  | other => other
+  end.
+Definition eval1 (mx : res (Z * list string)) (f : option (Z -> res opres)) : res (Z * list string) :=
+  match mx with
+  | Ok a => match f with
+            | Some g => apply_body (snd a) (g (fst a))
+            | None => Crash "KeyError:operator"
+            end
+  | other => other
+  end.
+
 Fixpoint meval (t : ptree) : res (Z * list string) :=
   match t with
   | PNum v i8 rep =>
@@ -350,31 +387,9 @@ Fixpoint meval (t : ptree) : res (Z * list string) :=
   | PChar cs => Ok (char_value encode cs)
   | PRad50 v errs => Ok (Z.of_N v, errs)
   | PParen _ e => meval e
-  | PInfix c l r =>
-      do a <- meval l;
-      do b <- meval r;
-      match infix_body c with
-      | Some f => do v <- f (fst a) (fst b); Ok (fst v, snd a ++ snd b ++ snd v)%list
-      | None => Crash "KeyError:operator"
-      end
-  | PCall f x =>
-      do a <- meval f;
-      do b <- meval x;
-      match infix_body "$" with
-      | Some g => do v <- g (fst a) (fst b); Ok (fst v, snd a ++ snd b ++ snd v)%list
-      | None => Crash "KeyError:operator"
-      end
-  | PPrefix c x =>
-      do a <- meval x;
-      match prefix_body c with
-      | Some f => do v <- f (fst a); Ok (fst v, snd a ++ snd v)%list
-      | None => Crash "KeyError:operator"
-      end
-  | PPostfix c x =>
-      do a <- meval x;
-      match postfix_body c with
-      | Some f => do v <- f (fst a); Ok (fst v, snd a ++ snd v)%list
-      | None => Crash "KeyError:operator"
-      end
+  | PInfix c l r => eval2 (meval l) (meval r) (infix_body c)
+  | PCall f x => eval2 (meval f) (meval x) (infix_body "$")
+  | PPrefix c x => eval1 (meval x) (prefix_body c)
+  | PPostfix c x => eval1 (meval x) (postfix_body c)
   end.
 End Eval.
